@@ -209,6 +209,20 @@ func (c *FnCtx) genSym(g int, key string) string {
 	gi := c.gens[g]
 	if len(gi.merge) == 0 {
 		c.declare(sym, srt)
+		if key == "alloc" {
+			// nil is never an allocated object
+			c.emit(fmt.Sprintf("(assert (not (select %s 0)))", sym))
+		}
+		if g == 0 && strings.HasPrefix(key, "f:") {
+			// well-formed entry heap: a reference stored in a field of an allocated object is nil or allocated
+			if t, ok := keyTypes[key]; ok {
+				switch types.Unalias(t).Underlying().(type) {
+				case *types.Pointer, *types.Map:
+					al := c.genSym(0, "alloc")
+					c.emit(fmt.Sprintf("(assert (forall ((r!w Int)) (! (=> (select %s r!w) (or (= (select %s r!w) 0) (select %s (select %s r!w)))) :pattern ((select %s r!w)))))", al, sym, al, sym, sym))
+				}
+			}
+		}
 		return sym
 	}
 	// merged generation
